@@ -271,6 +271,9 @@ bool updateUnitMultiplier(const UnitsPtr &units, int direction, double &multipli
             }
         }
         multiplier += localMultiplier * direction;
+    } else if (isStandardUnitName(units->name())) {
+        // A units without unit children that is named after a standard unit is that standard unit.
+        multiplier += standardMultiplierList.at(units->name()) * direction;
     }
 
     return true;
